@@ -79,11 +79,11 @@ def r1_update_var_writes_private_state(ctx, rid):
         if not isinstance(call.func, ast.Attribute) or call.func.attr != "update_var":
             continue
         how = ctx.cg.resolve_call(caller, call)[1]
-        if how == "by-name":
-            continue
-        n += 1
         an = analyse(eff, caller, None)
         orig = an.origins(call.func.value)
+        if how == "by-name" and not (orig and all(o[0] == "F" for o in orig)):
+            continue        # receiver of unknown class: only a write into a provably fresh object can be decided (it is fine whatever the class)
+        n += 1
         if orig and all(o[0] == "F" for o in orig):
             ctx.ok(rid, caller, call, "node/edge template is updated on a fresh deep copy", {"receiver": sorted(fmt_origin(o) for o in orig)})
         else:
@@ -361,24 +361,11 @@ def r5_cached_defaults_come_from_the_template(ctx, rid):
                           label="cached operator defaults come from the template")
         else:
             ctx.ok(rid, f, w, "the cached default is the template's own declared value", facts, label="cached operator defaults come from the template")
-    # the per-call dict is only filled, from the cached defaults, where the caller gave no value
-    fills = [st for st in walk_shallow(f.node) if isinstance(st, ast.Assign) and len(st.targets) == 1 and isinstance(st.targets[0], ast.Subscript)
-             and isinstance(st.targets[0].value, ast.Name) and st.targets[0].value.id == "values"]
-    cfg = ctx.cfg(f)
-    for c in walk_shallow(f.node):
-        if isinstance(c, ast.Call) and isinstance(c.func, ast.Attribute) and isinstance(c.func.value, ast.Name) and c.func.value.id == "values":
-            if c.func.attr == "setdefault":
-                ctx.ok(rid, f0, c, "a default is filled in only where the caller passed no value (setdefault)", nontrivial=False,
-                       label=f"fill by setdefault L{getattr(c, 'lineno', 0) and ''}{norm(c)[:60]}")
-            elif c.func.attr == "update":
-                ctx.violation(rid, f0, c, "`values.update(...)` overwrites the values the caller passed for this node with defaults")
-    for st in fills:
-        guards = [d for d in cfg.dominators(st) if isinstance(d, ast.If) and any(contains(b, st) for b in d.body)
-                  and isinstance(d.test, ast.Compare) and isinstance(d.test.ops[0], ast.NotIn) and ast.unparse(d.test.comparators[0]) == "values"]
-        if guards:
-            ctx.ok(rid, f, st, "a default is filled in only where the caller passed no value", {"guard": norm(guards[0])})
-        else:
-            ctx.violation(rid, f, st, "a default overwrites the value the caller passed for this node (no `not in values` guard)")
+    # the per-call dict is only filled, from the cached defaults, where the caller gave no value: decided by C13-R9 (presence of
+    # the key decides; membership tests of either polarity, setdefault, get(k, default), conditional expressions on presence and
+    # `{**cached, **values}` are the accepted forms; update(cached), a truthiness test or an unconditional fill are violations)
+    from .c13 import r9_explicit_value_wins_over_cached_default
+    r9_explicit_value_wins_over_cached_default(ctx, rid)
 
 
 RULES = [
@@ -386,5 +373,5 @@ RULES = [
     ("C07-R2", r2_apply_does_not_write_template, 9),
     ("C07-R3", r3_array_values_by_position, 2),
     ("C07-R4", r4_edge_update_replaces_exactly_one_edge, 1),
-    ("C07-R5", r5_cached_defaults_come_from_the_template, 3),
+    ("C07-R5", r5_cached_defaults_come_from_the_template, 2),
 ]
